@@ -318,6 +318,155 @@ fn table_status(code: &str) -> Option<Option<u16>> {
     ERROR_TABLE.iter().find(|(c, _)| *c == code).map(|x| x.1)
 }
 
+/// one request against one configuration: no panic, no hang, Ok(response), and a well-formed error document with the table's status
+#[allow(clippy::too_many_arguments)]
+fn evaluate(a: &mut Acc, id: &dyn Fn() -> String, r: &R, cfg: &SvcCfg, axes_names: &[&str], order: u64, ii: u64, t0: i64) -> String {
+    a.eval();
+    set_clock_ms((t0 + 60) * 1000);
+    let (svc, _log) = cfg.build();
+    let injected_io = !matches!(r.body, BodyKind::Bytes(_));
+    let out = call(&svc, &r.req, body_from_steps(steps(&r.body)));
+    match &out {
+        CallOutcome::Unbuildable => {
+            a.outcome("outside the space: the http crate refuses these request parts");
+        }
+        CallOutcome::Panic(msg) => {
+            a.outcome("PANIC");
+            let loc = msg.rsplit(" @ ").next().unwrap_or("?");
+            a.fail(&format!("C04/panic@{loc}"), order, id(), format!("panic: {msg}"), json!({"request": r.req.describe(), "body": format!("{:?}", r.body).chars().take(200).collect::<String>()}));
+        }
+        CallOutcome::Hang => {
+            a.outcome("HANG");
+            a.fail(&format!("C04/hang/{}", axes_names.join("+")), order, id(), "the call never completes".into(), json!({"request": r.req.describe()}));
+        }
+        CallOutcome::TransportFailure(e) => {
+            if injected_io {
+                a.outcome("transport failure after an injected I/O error (not judged)");
+            } else {
+                a.outcome("TRANSPORT FAILURE for a problem in the request");
+                a.fail(&format!("C04/transport-failure/{}", axes_names.join("+")), order, id(), format!("S3Service::call returned Err for a request problem: {e}"), json!({"request": r.req.describe()}));
+            }
+        }
+        CallOutcome::Response(resp) => {
+            a.nontrivial(fnv(id().as_bytes()));
+            if let Some(e) = &resp.body_error {
+                if !injected_io {
+                    a.fail("C04/response-body-error", ii, id(), format!("response body stream failed: {e}"), json!({}));
+                }
+            }
+            let st = resp.status.as_u16();
+            if st >= 400 {
+                match read_error_doc(&resp.body_str()) {
+                    Ok((code, _, _)) => {
+                        a.outcome(&format!("{st} {code}"));
+                        match table_status(&code) {
+                            Some(Some(want)) if want != st => a.fail(&format!("C04/status-differs-from-error-table/{code}"), ii, id(), format!("error {code} answered with status {st}; the error-code table says {want}"), json!({})),
+                            _ => {}
+                        }
+                    }
+                    Err(e) => {
+                        a.outcome(&format!("{st} MALFORMED ERROR DOCUMENT"));
+                        a.fail("C04/error-document-malformed", ii, id(), format!("status {st} with body {:?}: {e}", resp.body_str().chars().take(200).collect::<String>()), json!({"request": r.req.describe()}));
+                    }
+                }
+            } else {
+                a.outcome(&format!("{st}"));
+            }
+        }
+    }
+    out.verdict()
+}
+
+/// (a2) E5 at the character level. Every text the adapter *interprets* after decoding - each query parameter value (the
+/// presigned-URL parameters of both signature versions among them), the object key, each field of the POST form - with,
+/// at every byte offset, a 2-, 3- and 4-byte character, a NUL, a '%' and a '/' written over the bytes there and inserted
+/// between them: the decoded value is valid UTF-8 whose character boundaries fall where ASCII-minded slicing does not expect.
+fn char_sweep(acc: &mut Acc) -> usize {
+    let t0 = amz_date_to_epoch(DATE).unwrap();
+    let cfgs: Vec<SvcCfg> = configs(true).into_iter().filter(|c| c.host == HostMode::None && c.route == RouteMode::None).collect();
+    let glyphs = ["é", "€", "😀", "\0", "%", "/"];
+    // (label, request)
+    let mut cases: Vec<(String, R)> = Vec::new();
+    let variants = |v: &str| -> Vec<(String, String)> {
+        let mut out = Vec::new();
+        let b = v.as_bytes();
+        for i in 0..=b.len() {
+            if !v.is_char_boundary(i) {
+                continue;
+            }
+            for g in glyphs {
+                out.push((format!("insert {g:?} at {i}"), format!("{}{g}{}", &v[..i], &v[i..])));
+                let j = i + g.len();
+                if j <= b.len() && v.is_char_boundary(j) {
+                    out.push((format!("write {g:?} over {i}..{j}"), format!("{}{g}{}", &v[..i], &v[j..])));
+                }
+            }
+        }
+        out
+    };
+    for (bname, base) in bases() {
+        // query parameter values
+        if let Some(q) = base.req.query().map(str::to_owned) {
+            let parts: Vec<String> = q.split('&').map(str::to_owned).collect();
+            for (pi, part) in parts.iter().enumerate() {
+                let (n, v) = part.split_once('=').unwrap_or((part.as_str(), ""));
+                let Some(dec) = query_decode(v) else { continue };
+                for (what, nv) in variants(&dec) {
+                    let mut ps = parts.clone();
+                    ps[pi] = format!("{n}={}", uri_encode(&nv, true));
+                    let mut r = base.clone();
+                    r.req.target = format!("{}?{}", base.req.path(), ps.join("&"));
+                    cases.push((format!("{bname}/query {n}: {what}"), r));
+                }
+            }
+        }
+        // the key
+        if bname == "anonymous-get-object" || bname == "v4-header-put-unsigned-payload" {
+            for (what, nv) in variants("k") {
+                let mut r = base.clone();
+                set_path(&mut r.req, &format!("/bkt/{}", uri_encode(&nv, false)));
+                cases.push((format!("{bname}/key: {what}"), r));
+            }
+        }
+        // copy source header values are ASCII-only on the wire; their escapes decode to the same characters
+        if bname == "anonymous-copy-object" {
+            for (what, nv) in variants("src/k x") {
+                let mut r = base.clone();
+                r.req.set_header("x-amz-copy-source", &uri_encode(&nv, false));
+                cases.push((format!("{bname}/copy source: {what}"), r));
+            }
+        }
+    }
+    // POST form fields
+    {
+        let f = form::signed_form("k", r#"{"expiration":"2030-01-01T00:00:00Z","conditions":[]}"#, AK, SK, DATE, REGION, b"hello", &[("x-amz-meta-a", "v"), ("success_action_status", "201"), ("Content-Type", "text/plain")]);
+        for (n, v) in f.fields.clone() {
+            for (what, nv) in variants(&v) {
+                if nv.contains('\0') && n.eq_ignore_ascii_case("policy") {
+                    continue;
+                }
+                let mut g = f.clone();
+                g.set_field(&n, &nv);
+                let (req, body) = g.request("/bkt", HOST);
+                cases.push((format!("post-form/field {n}: {what}"), R { req, body: BodyKind::Bytes(body) }));
+            }
+        }
+    }
+    let n = cases.len();
+    par_items(acc, &cases, |a, ci, (label, r)| {
+        for cfg in &cfgs {
+            let cfg_name = format!("auth={} access={:?}", cfg.keys.is_some(), cfg.access);
+            let id = || format!("chars/[{cfg_name}]/{label}");
+            if !a.selected(&id) {
+                continue;
+            }
+            evaluate(a, &id, r, cfg, &["characters"], ci, ci, t0);
+        }
+        s3s::verif_hooks::set_now(None);
+    });
+    n
+}
+
 fn totality(acc: &mut Acc, tier: Tier) -> usize {
     let bs = bases();
     let ax = axes();
@@ -356,66 +505,10 @@ fn totality(acc: &mut Acc, tier: Tier) -> usize {
             for d in devs {
                 (ax[singles[*d].0].1[singles[*d].1].1)(&mut r);
             }
-            a.eval();
-            set_clock_ms((t0 + 60) * 1000);
-            let (svc, _log) = cfg.build();
-            let injected_io = !matches!(r.body, BodyKind::Bytes(_));
-            let out = call(&svc, &r.req, body_from_steps(steps(&r.body)));
             let axes_names: Vec<&str> = devs.iter().map(|d| ax[singles[*d].0].0.as_str()).collect();
-            match &out {
-                CallOutcome::Unbuildable => {
-                    a.outcome("outside the space: the http crate refuses these request parts");
-                    return;
-                }
-                CallOutcome::Panic(msg) => {
-                    a.outcome("PANIC");
-                    let loc = msg.rsplit(" @ ").next().unwrap_or("?");
-                    a.fail(&format!("C04/panic@{loc}"), devs.len() as u64 * 1_000_000 + ii, id(), format!("panic: {msg}"), json!({"request": r.req.describe(), "body": format!("{:?}", r.body).chars().take(200).collect::<String>()}));
-                    return;
-                }
-                CallOutcome::Hang => {
-                    a.outcome("HANG");
-                    a.fail(&format!("C04/hang/{}", axes_names.join("+")), devs.len() as u64 * 1_000_000 + ii, id(), "the call never completes".into(), json!({"request": r.req.describe()}));
-                    return;
-                }
-                CallOutcome::TransportFailure(e) => {
-                    if injected_io {
-                        a.outcome("transport failure after an injected I/O error (not judged)");
-                    } else {
-                        a.outcome("TRANSPORT FAILURE for a problem in the request");
-                        a.fail(&format!("C04/transport-failure/{}", axes_names.join("+")), devs.len() as u64 * 1_000_000 + ii, id(), format!("S3Service::call returned Err for a request problem: {e}"), json!({"request": r.req.describe()}));
-                    }
-                    return;
-                }
-                CallOutcome::Response(resp) => {
-                    a.nontrivial(fnv(id().as_bytes()));
-                    if let Some(e) = &resp.body_error {
-                        if !injected_io {
-                            a.fail("C04/response-body-error", ii, id(), format!("response body stream failed: {e}"), json!({}));
-                        }
-                    }
-                    let st = resp.status.as_u16();
-                    if st >= 400 {
-                        match read_error_doc(&resp.body_str()) {
-                            Ok((code, _, _)) => {
-                                a.outcome(&format!("{st} {code}"));
-                                match table_status(&code) {
-                                    Some(Some(want)) if want != st => a.fail(&format!("C04/status-differs-from-error-table/{code}"), ii, id(), format!("error {code} answered with status {st}; the error-code table says {want}"), json!({})),
-                                    _ => {}
-                                }
-                            }
-                            Err(e) => {
-                                a.outcome(&format!("{st} MALFORMED ERROR DOCUMENT"));
-                                a.fail("C04/error-document-malformed", ii, id(), format!("status {st} with body {:?}: {e}", resp.body_str().chars().take(200).collect::<String>()), json!({"request": r.req.describe()}));
-                            }
-                        }
-                    } else {
-                        a.outcome(&format!("{st}"));
-                    }
-                }
-            }
+            let verdict = evaluate(a, &id, &r, cfg, &axes_names, devs.len() as u64 * 1_000_000 + ii, ii, t0);
             if ii % 50_000 == 1 {
-                a.sample(ii, json!({"base": bname, "config": cfg_name, "deviations": labels, "outcome": out.verdict()}));
+                a.sample(ii, json!({"base": bname, "config": cfg_name, "deviations": labels, "outcome": verdict}));
             }
         };
         match first {
@@ -605,13 +698,14 @@ fn rendering(acc: &mut Acc) {
 pub fn run(ctx: &Ctx) -> (Acc, Report) {
     let mut acc = ctx.acc();
     let n_single = totality(&mut acc, ctx.tier);
+    let n_chars = char_sweep(&mut acc);
     rendering(&mut acc);
     let k = ctx.tier.pick(2, 3);
     let rep = Report {
         level: "exploration",
-        rule: format!("(a) 13 valid base requests (anonymous GET/HEAD/list, V4 header with unsigned / signed / chunk-signed payload, V4 presigned, V2 header, V2 presigned, POST form, XML PUT, copy, ranged GET) x 16 service configurations x every combination of at most {k} deviations (triples on 2 configurations) out of {n_single} single deviations: 9 methods, 21 paths, 42 queries, 32 interpreted headers x {{absent, empty, garbage, opaque bytes >= 0x80, plausible-but-wrong, duplicated}}, 5 bodies incl. I/O errors, 2 HTTP versions. Oracle: no panic, no hang, Ok(response), and for status >= 400 a well-formed <Error> document whose code has that status in data/s3_error_codes.json. (b) every code of the error table + 2 custom codes x 10 messages x 3 request ids x status override x 4 header maps (none, one, three, one with a name attached twice) x {{S3Error::to_http_response, backend error through GetObject}}. Distinct by id."),
+        rule: format!("(a) 13 valid base requests (anonymous GET/HEAD/list, V4 header with unsigned / signed / chunk-signed payload, V4 presigned, V2 header, V2 presigned, POST form, XML PUT, copy, ranged GET) x 16 service configurations x every combination of at most {k} deviations (triples on 2 configurations) out of {n_single} single deviations: 9 methods, 21 paths, 42 queries, 32 interpreted headers x {{absent, empty, garbage, opaque bytes >= 0x80, plausible-but-wrong, duplicated}}, 5 bodies incl. I/O errors, 2 HTTP versions. (a2) {n_chars} character-level deviations: every decoded text the adapter interprets (each query parameter value of each base - the presigned-URL parameters of both signature versions among them -, the key, the copy source, each field of the POST form) with a 2-, 3- and 4-byte character, NUL, '%' and '/' written over and inserted at every byte offset, on 4 configurations. Oracle: no panic, no hang, Ok(response), and for status >= 400 a well-formed <Error> document whose code has that status in data/s3_error_codes.json. (b) every code of the error table + 2 custom codes x 10 messages x 3 request ids x status override x 4 header maps (none, one, three, one with a name attached twice) x {{S3Error::to_http_response, backend error through GetObject}}. Distinct by id."),
         exhaustive: true,
-        extra: json!({"single_deviations": n_single, "error_codes": ERROR_TABLE.len()}),
+        extra: json!({"single_deviations": n_single, "character_level_deviations": n_chars, "error_codes": ERROR_TABLE.len()}),
         assumptions: vec!["a transport failure after an injected body I/O error is not judged (it is a transport problem, not a request problem)".into(), "requests the http crate itself refuses cannot reach the adapter and are outside the space".into(), "messages do not contain a bare carriage return (XML line-end normalisation is C13's subject)".into()],
     };
     (acc, rep)
